@@ -8,6 +8,7 @@ package main
 import (
 	"bufio"
 	"encoding/hex"
+	"flag"
 	"fmt"
 	"os"
 	"sort"
@@ -73,6 +74,9 @@ func natsStr(l []uint) string {
 }
 
 func unhex(s string) string {
+	if s == "EMPTY" {
+		return ""
+	}
 	b, err := hex.DecodeString(s)
 	if err != nil {
 		panic("bad hex")
@@ -364,6 +368,14 @@ func safeHandle(line string) (out string) {
 }
 
 func main() {
+	conc := flag.Bool("concurrent", false, "run the shared-object concurrency workload (C20) instead of the line protocol")
+	gor := flag.Int("goroutines", 16, "goroutines of the concurrency workload")
+	iters := flag.Int("iters", 25, "iterations per goroutine")
+	flag.Parse()
+	if *conc {
+		runConcurrent(*gor, *iters)
+		return
+	}
 	timeout := 20 * time.Second
 	if s := os.Getenv("VERIF_OP_TIMEOUT_MS"); s != "" {
 		if ms, err := strconv.Atoi(s); err == nil {
